@@ -181,6 +181,14 @@ impl CTree {
                 }
                 _ => false,
             },
+            Op::DropChild(p, idx) => match self.get(*p) {
+                Some(p) if !self.nodes[p].children.is_empty() => {
+                    let cnt = self.nodes[p].children.len();
+                    self.detach_at(p, idx % cnt);
+                    true
+                }
+                _ => false,
+            },
             Op::Reparent(n, p) => match (self.get(*n), self.get(*p)) {
                 (Some(n), Some(p)) if !self.is_ancestor_or_self(n, p) => {
                     if let Some(old) = self.nodes[n].parent {
@@ -699,6 +707,10 @@ pub fn run_history(seed: u64, idx: u64) -> (Vec<i64>, Vec<i64>, Vec<String>) {
                 vec![4, *p as i64, (idx % cnt) as i64, nid, is_none(s)]
             }
             Op::Rotate(p) => vec![5, *p as i64],
+            Op::DropChild(p, idx) => {
+                let cnt = w.t.child_count(w.pool[*p].unwrap()) + 1;
+                vec![3, *p as i64, (idx % cnt) as i64]
+            }
             Op::Reparent(n, p) => vec![6, *n as i64, *p as i64],
             Op::Remove(i) => vec![7, *i as i64],
             Op::SetCtx(i, _) => vec![8, *i as i64],
